@@ -1,4 +1,5 @@
-import AndaVerif.Proofs.BeliefRename
+import AndaVerif.Proofs.BeliefExtend
+import AndaVerif.Proofs.BeliefRounding
 /-
 Property C20 — belief is projected: silence is not rejection, repetition is not support.
 Theorems over `AndaVerif.Model.Belief` (the model of projection/mod.rs and projection/policy.rs).
@@ -132,7 +133,9 @@ theorem lifecycle_exclusion_time_independent (pol pol' : Policy) (now now' : Nat
     isEligible pol now r = false ∧
     exclOf pol now r = some (r.id, match r.status with
       | .retracted => .retracted | .superseded => .superseded | .expired => .expired | _ => .invalidSchema) := by
-  unfold isEligible candOf exclOf eligible
+  unfold isEligible candOf exclOf
+  simp only [eligible_eq_spec]
+  unfold eligibleSpec
   cases hs : r.status <;> simp_all
 
 /-- The reasons are the code's: each lifecycle state, the window, the mode. -/
@@ -372,6 +375,201 @@ example :
       some (.uncertain, ⟨65, 100⟩) ∧
     (project Policy.baseline 0 (raiseRow 0 8 [row 0 3, row 1 (-1)]) false [0] 0).map (fun a => (a.status, a.support)) =
       some (.accepted, ⟨90, 100⟩) := by
+  decide
+
+-- ------------------------------------------------------------------------------------------
+-- "depends only on the set of eligible assertions, never on … anything stored"
+-- ------------------------------------------------------------------------------------------
+
+/-- **The belief is a function of the multiset of eligible Assertions.** Two stores whose eligible
+rows (at this evaluation instant, under this policy) are permutations of each other project the
+same status, scores, group counts, policy and (up to order) supporting / opposing / uncertain
+ledgers — whatever ineligible rows either store holds and in whatever order anything was recorded.
+(`project` has no other input: no stored belief, no cache, no clock besides `now`.) -/
+theorem depends_only_on_eligible (pol : Policy) (now : Nat) {rows₁ rows₂ : List Row}
+    (h : (rows₁.filter (isEligible pol now)).Perm (rows₂.filter (isEligible pol now)))
+    (functional : Bool) (slot : List Nat) (target : Nat) :
+    ∃ a b, project pol now rows₁ functional slot target = some a ∧
+      project pol now rows₂ functional slot target = some b ∧ SameBelief a b :=
+  project_eligible_only pol now h functional slot target
+
+/-- **Adding an ineligible Assertion does not change the projection**: recorded anywhere, about
+the target, a rival or anything else, it leaves status, scores, group counts and the three ledgers
+of eligible voices as they were; it is appended to `excluded` (with its reason) exactly when it is
+about the target. -/
+theorem adding_ineligible_changes_nothing (pol : Policy) (now : Nat) (rows : List Row) (r : Row)
+    (hr : isEligible pol now r = false) {rows' : List Row} (hperm : rows'.Perm (rows ++ [r]))
+    (functional : Bool) (slot : List Nat) (target : Nat) :
+    ∃ a b, project pol now rows functional slot target = some a ∧
+      project pol now rows' functional slot target = some b ∧ SameBelief a b ∧
+      b.ledger.excluded.Perm (a.ledger.excluded ++
+        (if r.prop = target then (exclOf pol now r).toList else [])) :=
+  project_add_ineligible pol now rows r hr hperm functional slot target
+
+/-- A retracted Assertion is ineligible (at every instant, under every policy). -/
+theorem retracted_contributes_nothing (pol : Policy) (now : Nat) (r : Row) (h : r.status = .retracted) :
+    isEligible pol now r = false ∧ exclOf pol now r = some (r.id, .retracted) := by
+  unfold isEligible candOf exclOf; simp [eligible_eq_spec, eligibleSpec, h]
+
+/-- A superseded Assertion is ineligible. -/
+theorem superseded_contributes_nothing (pol : Policy) (now : Nat) (r : Row) (h : r.status = .superseded) :
+    isEligible pol now r = false ∧ exclOf pol now r = some (r.id, .superseded) := by
+  unfold isEligible candOf exclOf; simp [eligible_eq_spec, eligibleSpec, h]
+
+/-- An expired Assertion is ineligible. -/
+theorem expired_contributes_nothing (pol : Policy) (now : Nat) (r : Row) (h : r.status = .expired) :
+    isEligible pol now r = false ∧ exclOf pol now r = some (r.id, .expired) := by
+  unfold isEligible candOf exclOf; simp [eligible_eq_spec, eligibleSpec, h]
+
+/-- A not-yet-valid Assertion (active, visible, `now < valid_from`) is ineligible. -/
+theorem not_yet_valid_contributes_nothing (pol : Policy) (now : Nat) (r : Row) (f : Nat)
+    (hs : r.status = .active) (hv : r.visible = true) (hf : r.validFrom = some f) (hlt : now < f) :
+    isEligible pol now r = false ∧ exclOf pol now r = some (r.id, .outsideValidTime) := by
+  unfold isEligible candOf exclOf; simp [eligible_eq_spec, eligibleSpec, hs, hv, hf, hlt]
+
+/-- A no-longer-valid Assertion (`valid_until ≤ now`; the window is half-open) is ineligible. -/
+theorem no_longer_valid_contributes_nothing (pol : Policy) (now : Nat) (r : Row) (u : Nat)
+    (hs : r.status = .active) (hv : r.visible = true) (hu : r.validUntil = some u) (hle : u ≤ now) :
+    isEligible pol now r = false ∧ exclOf pol now r = some (r.id, .outsideValidTime) := by
+  unfold isEligible candOf exclOf
+  cases hf : r.validFrom with
+  | none => simp [eligible_eq_spec, eligibleSpec, hs, hv, hu, hle, hf]
+  | some f =>
+    by_cases hlt : now < f
+    · simp [eligible_eq_spec, eligibleSpec, hs, hv, hf, hlt]
+    · simp [eligible_eq_spec, eligibleSpec, hs, hv, hu, hle, hf, hlt]
+
+/-- An Assertion whose mode the policy does not admit (or whose mode is unreadable) is ineligible,
+with the reason `Policy::mode_exclusion` names. -/
+theorem inadmissible_mode_contributes_nothing (pol : Policy) (now : Nat) (r : Row)
+    (hs : r.status = .active) (hv : r.visible = true)
+    (hfrom : ∀ f, r.validFrom = some f → f ≤ now) (huntil : ∀ u, r.validUntil = some u → now < u)
+    (hm : pol.admits r.mode = false) :
+    isEligible pol now r = false ∧ exclOf pol now r = some (r.id, modeExclusion r.mode) := by
+  unfold isEligible candOf exclOf
+  cases hf : r.validFrom with
+  | none =>
+    cases hu : r.validUntil with
+    | none => simp [eligible_eq_spec, eligibleSpec, hs, hv, hm, modeExclusion_eq, hf, hu]
+    | some u =>
+      have := huntil u hu
+      simp [eligible_eq_spec, eligibleSpec, hs, hv, hm, modeExclusion_eq, hf, hu, Nat.not_le.2 this]
+  | some f =>
+    have h1 := hfrom f hf
+    cases hu : r.validUntil with
+    | none => simp [eligible_eq_spec, eligibleSpec, hs, hv, hm, modeExclusion_eq, hf, hu, Nat.not_lt.2 h1]
+    | some u =>
+      have := huntil u hu
+      simp [eligible_eq_spec, eligibleSpec, hs, hv, hm, modeExclusion_eq, hf, hu, Nat.not_lt.2 h1, Nat.not_le.2 this]
+
+/-- One store, all five kinds, plus one eligible voice: adding any of them keeps `accepted 9/10`. -/
+example :
+    let mk (id : Nat) (st : Status) (m : Mode) (f u : Option Nat) : Row :=
+      { id := id, prop := 0, actor := some id, evidence := [], stance := .reject, conf := 10, mode := some m,
+        status := st, visible := true, validFrom := f, validUntil := u }
+    let voice : Row := { mk 0 .active .stated none none with stance := .support, conf := 9 }
+    (project Policy.baseline 5 [voice] false [0] 0).map (fun a => (a.status, a.support, a.opposition.num)) =
+      some (.accepted, ⟨9, 10⟩, 0) ∧
+    (project Policy.baseline 5 [mk 1 .retracted .stated none none, mk 2 .superseded .stated none none, voice,
+        mk 3 .expired .stated none none, mk 4 .active .stated (some 6) none, mk 5 .active .stated none (some 5),
+        mk 6 .active .hypothetical none none] false [0] 0).map
+      (fun a => (a.status, a.support, a.opposition.num, a.ledger.excluded.map (·.2))) =
+      some (.accepted, ⟨9, 10⟩, 0, [.retracted, .superseded, .expired, .outsideValidTime, .outsideValidTime,
+        .hypotheticalNotRequested]) := by
+  decide
+
+-- ------------------------------------------------------------------------------------------
+-- an exact repetition
+-- ------------------------------------------------------------------------------------------
+
+/-- **A duplicate from the same source changes nothing.** One more eligible Assertion about the
+target whose keys (actor and cited Evidence) are all keys of an earlier candidate `c'` of the same
+side and which is not more confident than `c'` — e.g. the same actor repeating the same claim —
+leaves status, both scores and both group counts exactly as they were, wherever it is recorded. -/
+theorem exact_repetition_changes_nothing (pol : Policy) (now : Nat) (rows : List Row) (r : Row)
+    (functional : Bool) (slot : List Nat) (target : Nat) (hr : r.prop = target) {c : Cand}
+    (hc : candOf pol now r = some c) (opposing : Bool) (hside : onSide opposing c = true)
+    {c' : Cand} (hc' : c' ∈ (collect pol now rows target (rivalsOf functional slot target)).2)
+    (hside' : onSide opposing c' = true) (hsub : ∀ k ∈ c.keys, k ∈ c'.keys) (hconf : c.conf ≤ c'.conf)
+    {rows' : List Row} (hperm : rows'.Perm (rows ++ [r])) :
+    ∃ a b, project pol now rows functional slot target = some a ∧
+      project pol now rows' functional slot target = some b ∧
+      a.status = b.status ∧ a.support = b.support ∧ a.supportGroups = b.supportGroups ∧
+      a.opposition = b.opposition ∧ a.oppositionGroups = b.oppositionGroups :=
+  project_duplicate pol now rows r functional slot target hr hc opposing hside hc' hside' hsub hconf hperm
+
+-- ------------------------------------------------------------------------------------------
+-- f64 versus exact arithmetic
+-- ------------------------------------------------------------------------------------------
+
+/-- **The status is stable under rounding outside the threshold band.** The model classifies with
+exactly the code's six comparisons (`support ≥ accept`, `opposition < material`, `opposition ≥ accept`,
+`support < material`, `support ≥ material`, `opposition ≥ material`: generated `classifyComparisons`),
+and this integer classification is the rational one (`classify_eq_classifyQ`). For ANY perturbed
+scores and thresholds (the code's f64 values) within `δ` of the exact ones, if each exact score is
+at least `2δ` away from each threshold, the classification of the perturbed values is the answer's
+status. (The harness uses δ = 5·10⁻¹⁰: it checks |f64 − exact| on every case and skips the exact
+status comparison only inside the band.) -/
+theorem status_stable_under_rounding {pol : Policy} (hden : 0 < pol.den) {now : Nat} {rows : List Row}
+    {functional : Bool} {slot : List Nat} {target : Nat} {a : Answer}
+    (h : project pol now rows functional slot target = some a)
+    {s' o' acc' mat' δ : ℚ}
+    (hs : |s' - a.support.toRat| < δ) (ho : |o' - a.opposition.toRat| < δ)
+    (ha : |acc' - (pol.accept : ℚ) / pol.den| < δ) (hm : |mat' - (pol.material : ℚ) / pol.den| < δ)
+    (b1 : δ + δ ≤ |a.support.toRat - (pol.accept : ℚ) / pol.den|)
+    (b2 : δ + δ ≤ |a.support.toRat - (pol.material : ℚ) / pol.den|)
+    (b3 : δ + δ ≤ |a.opposition.toRat - (pol.accept : ℚ) / pol.den|)
+    (b4 : δ + δ ≤ |a.opposition.toRat - (pol.material : ℚ) / pol.den|) :
+    classifyQ s' o' acc' mat'
+      (decide (a.supportGroups > 0) || decide (a.oppositionGroups > 0) || !a.ledger.uncertain.isEmpty) = a.status := by
+  obtain ⟨⟨hsd, _, _⟩, ⟨hod, _, _⟩⟩ := score_range hden h
+  rw [project_eq] at h
+  obtain ⟨sup, sg, opp, og, _, _, rfl⟩ := projectCands_some h
+  simp only at hs ho b1 b2 b3 b4 hsd hod ⊢
+  rw [classify_eq_classifyQ sg og _ hsd hod hden]
+  exact classifyQ_stable hs ho ha hm b1 b2 b3 b4 _
+
+/-- Non-vacuity: exact support 9/10 against accept 7/10, material 3/10; any f64 reading within
+10⁻⁹ of those (here: off by 10⁻¹²) classifies as the model does. -/
+example : classifyQ (9/10 - 1/10^12) (0 + 1/10^12) (7/10 + 1/10^12) (3/10 - 1/10^12) true = .accepted ∧
+    classifyQ (9/10) 0 (7/10) (3/10) true = .accepted := by
+  constructor <;> (unfold classifyQ; norm_num)
+
+-- ------------------------------------------------------------------------------------------
+-- the projection at a point (bridge for the historical-read property)
+-- ------------------------------------------------------------------------------------------
+
+/-- **`projectAt`**: projecting over the rows of a snapshot that are eligible at the evaluation point
+is the projection over the whole snapshot (only the `excluded` ledger is emptied); and two
+snapshots with the same eligible rows — e.g. the store now and the store as reconstructed at a
+coordinate, when they differ only in rows that are ineligible at that point — project the same
+belief. -/
+theorem projectAt_spec (pol : Policy) (now : Nat) (snapshot : List Row) (functional : Bool) (slot : List Nat)
+    (target : Nat) :
+    projectAt pol now snapshot functional slot target =
+      (project pol now snapshot functional slot target).map
+        (fun a => { a with ledger := { a.ledger with excluded := [] } }) :=
+  project_filter_eq pol now snapshot functional slot target
+
+theorem projectAt_congr (pol : Policy) (now : Nat) {snap₁ snap₂ : List Row}
+    (h : (snap₁.filter (isEligible pol now)).Perm (snap₂.filter (isEligible pol now)))
+    (functional : Bool) (slot : List Nat) (target : Nat) :
+    ∃ a b, projectAt pol now snap₁ functional slot target = some a ∧
+      projectAt pol now snap₂ functional slot target = some b ∧ SameBelief a b ∧
+      a.ledger.excluded = [] ∧ b.ledger.excluded = [] := by
+  obtain ⟨a, hA⟩ := project_total pol now snap₁ functional slot target
+  obtain ⟨x, y, hx, hy, sxy⟩ := project_eligible_only pol now h functional slot target
+  rw [hA] at hx; cases hx
+  refine ⟨_, _, by rw [projectAt_spec, hA]; rfl, by rw [projectAt_spec, hy]; rfl, ?_, rfl, rfl⟩
+  exact ⟨sxy.status, sxy.support, sxy.supportGroups, sxy.opposition, sxy.oppositionGroups, sxy.supporting,
+    sxy.opposing, sxy.uncertain, sxy.policy⟩
+
+example :
+    let row (id : Nat) (st : Status) : Row :=
+      { id := id, prop := 0, actor := some id, evidence := [], stance := .support, conf := 8, mode := some .stated,
+        status := st, visible := true, validFrom := none, validUntil := none }
+    (projectAt Policy.baseline 0 [row 0 .active, row 1 .retracted] false [0] 0).map (fun a => (a.status, a.ledger.excluded)) =
+      some (.accepted, []) := by
   decide
 
 end AndaVerif.Belief.C20
